@@ -430,6 +430,11 @@ def run_perm_case(kind, ys, seed, q, use_global, closest=False):
         qT, qts = None, type(e).__name__
     inv = p.get_fct_inv()
     invs = jl("%s=%s" % (code_tok(k), lab_tok(v)) for k, v in inv.permutation_.items())
+    # theorem get_fct_inv_involutive: reversing twice gives the fitted dictionary back.  The oracle asks for the same
+    # entries only (dictionary order and the `closest` flag are not observable through the round trip of the statement)
+    inv2 = inv.get_fct_inv()
+    info["inv2_same"] = (sorted("%s=%s" % (lab_tok(k), code_tok(v)) for k, v in inv2.permutation_.items())
+                         == sorted("%s=%s" % (lab_tok(k), code_tok(v)) for k, v in p.permutation_.items()))
     if qT is None:
         back, backs = None, "-"
     else:
@@ -812,6 +817,9 @@ def check_perm(kind, ys, seed, q, use_global=False, closest=False):
         nan_mid = [isinstance(v, (float, numpy.floating)) and math.isnan(float(v)) for v in res["qT"]]
         if nan_in != nan_mid:
             bad.append((tag + ":nan-moved", "NaN targets do not stay NaN", nan_mid, nan_in))
+    if not res["info"].get("inv2_same", True):
+        bad.append((tag + ":get_fct_inv-not-involutive", "get_fct_inv().get_fct_inv() is not the fitted transformer",
+                    "different permutation_", res["impl"].split("|")[0]))
     if not res["info"]["x_same"]:
         bad.append((tag + ":features-touched", "features are not returned untouched", "X replaced", "X"))
     return bad, res
